@@ -8,6 +8,8 @@ mod lexer;
 #[cfg(test)]
 mod tests;
 mod validator;
+#[cfg(feature = "verif-hooks")]
+pub mod verif;
 
 use std::{
     borrow::Cow,
@@ -163,6 +165,8 @@ pub struct CompileResult {
 
 impl CompileResult {
     fn fmt<B: Backend>(mut self) -> Self {
+        #[cfg(feature = "verif-hooks")]
+        crate::verif::point("fmt:before");
         self.generated = B::format_bindings(&self.generated).unwrap_or(self.generated);
         self
     }
@@ -481,6 +485,8 @@ impl<B: Backend> Compiler<B, CompilerReady> {
     pub fn compile(mut self) -> Result<Vec<CompilerError>, CompilerError> {
         let result = self.internal_compile()?.fmt::<B>();
 
+        #[cfg(feature = "verif-hooks")]
+        crate::verif::point("deliver:before");
         self.output_generated(&result.generated)?;
 
         Ok(result.warnings)
@@ -491,6 +497,8 @@ impl<B: Backend> Compiler<B, CompilerReady> {
         let mut warnings = Vec::<CompilerError>::new();
         let mut modules: Vec<ToplevelDefinition> = vec![];
         for src in &self.state.sources {
+            #[cfg(feature = "verif-hooks")]
+            crate::verif::point("lex:before");
             let src_unit = src.try_into()?;
             modules.append(
                 &mut asn_spec(src_unit)?
@@ -506,6 +514,8 @@ impl<B: Backend> Compiler<B, CompilerReady> {
                     .collect(),
             );
         }
+        #[cfg(feature = "verif-hooks")]
+        crate::verif::point("link:before");
         let (valid_items, mut validator_errors) = Validator::new(modules).validate()?;
         let modules = valid_items.into_iter().fold(
             BTreeMap::<String, Vec<ToplevelDefinition>>::new(),
@@ -525,6 +535,8 @@ impl<B: Backend> Compiler<B, CompilerReady> {
             },
         );
         for (_, module) in modules {
+            #[cfg(feature = "verif-hooks")]
+            crate::verif::point("gen:module");
             let mut generated_module = self.backend.generate_module(module)?;
             if let Some(m) = generated_module.generated {
                 generated_modules.push(m);
